@@ -64,6 +64,8 @@ pub fn query_set(height: u32, shape: u8, sel: &[u16]) -> Vec<u64> {
             let a = pick(s(1), n - len + 1);
             (a..a + len).collect()
         }
+        6 => (0..n).collect(),
+        7 => (0..n).step_by(2).collect(),
         _ => sel.iter().take(24).map(|x| pick(*x, n)).collect(),
     };
     if q.is_empty() {
@@ -117,7 +119,7 @@ pub fn check(case: &Case) -> Outcome {
         _ => prf_felt(case.seed ^ 0xC04, 1),
     };
     let boundary_inside = nvf >= 1 && nvf < h;
-    let shape_name = ["single", "adjacent", "whole", "per_subtree", "dense", "random"][case.shape as usize % 6];
+    let shape_name = ["single", "adjacent", "whole", "per_subtree", "dense", "random", "all_leaves", "every_second_leaf"][case.shape as usize % 8];
     let mut class = format!("honest/{}", shape_name);
     let mut corrupted = false;
     match case.corrupt {
@@ -207,8 +209,106 @@ fn class_key(s: &str) -> String {
     s.to_string()
 }
 
+/// large query sets (every leaf / every second leaf of trees up to 2^16 leaves), judged in a child
+/// process on a thread with the default 2 MiB stack: an honest decommitment must succeed, not abort
+pub fn big_strategy(max_h: u32) -> impl Strategy<Value = Case> {
+    (11u32..=max_h, 0u32..20, any::<u64>(), 6u8..8, prop_oneof![3 => Just(0u8), 1 => 1u8..6], any::<u16>(), any::<u16>()).prop_map(|(height, nv, seed, shape, corrupt, ca, cb)| Case {
+        height,
+        nvf: nv % (height + 3),
+        seed,
+        shape,
+        sel: vec![],
+        corrupt,
+        ca,
+        cb,
+    })
+}
+
+pub fn child(ctx: &Ctx, ca: &ChildArgs, _label: &str) {
+    let max_h = if ctx.quick() { 15 } else { 17 };
+    pt_run_child(ctx, "c04big", ctx.n(24, 200), ca, big_strategy(max_h), |c| {
+        let c = c.clone();
+        // a plain std thread: default stack size, as a caller of the library would have
+        match std::thread::spawn(move || check(&c)).join() {
+            Ok(o) => o,
+            Err(_) => Outcome::failed("big/thread_panicked", 0, "c04:big_case_panicked", "worker thread panicked"),
+        }
+    });
+}
+
+/// one opened leaf of a *sparse* tree of any height up to 250 (index as a big integer, PRF siblings):
+/// the tree is defined by the path, so its root is computable without building 2^h leaves.
+/// (Heights >= 251 are outside the domain: leaf indices of such a tree are not representable as field
+/// elements once shifted into heap form.)
+pub fn check_tall(height: u32, nvf: u32, seed: u64, corrupt: u8) -> Outcome {
+    use num_bigint::BigUint;
+    let kind = build_hash();
+    let f = fp(&("tall", height, nvf, seed, corrupt));
+    let mut idx = BigUint::from(0u8);
+    for i in 0..((height + 63) / 64) as u64 {
+        idx = (idx << 64) + BigUint::from(prf_u64(seed, i));
+    }
+    idx %= BigUint::from(1u8) << height;
+    let value = prf_felt(seed, 100);
+    let auth = prf_felts(seed ^ 0x7A11, height as usize);
+    let mut cur = value;
+    for d in (1..=height).rev() {
+        let level = (height - d) as u64;
+        let sib = auth[level as usize];
+        cur = if idx.bit(level) { node_hash(kind, nvf as u64, d as u64, sib, cur) } else { node_hash(kind, nvf as u64, d as u64, cur, sib) };
+    }
+    let mut root = cur;
+    let (mut v, mut a) = (value, auth.clone());
+    let class = match corrupt % 5 {
+        0 => "tall/honest",
+        1 => {
+            v += Felt::ONE;
+            "tall/corrupt_value"
+        }
+        2 => {
+            let k = (seed % height as u64) as usize;
+            a[k] += Felt::TWO.pow(160u128);
+            "tall/corrupt_sibling"
+        }
+        3 => {
+            root += Felt::ONE;
+            "tall/corrupt_root"
+        }
+        _ => {
+            a.pop();
+            "tall/drop_last_sibling"
+        }
+    };
+    let expect = corrupt % 5 == 0;
+    let c = Commitment {
+        config: Config { height: Felt::from(height as u64), n_verifier_friendly_commitment_layers: Felt::from(nvf as u64) },
+        commitment_hash: root,
+    };
+    let q = vec![Query { index: felt_big(&idx), value: v }];
+    match guarded(false, move || vector_commitment_decommit(c, &q, Witness { authentications: a }).is_ok()) {
+        Err(p) => Outcome::failed(class, f, p.signature(), p.describe()),
+        Ok(got) if got == expect => Outcome::pass(class, true, f),
+        Ok(_) => Outcome::failed(class, f, if expect { "c04:honest_rejected" } else { "c04:false_accepted:tall" }, format!("sparse tree of height {} (nvf {}): {} -> verdict {}", height, nvf, class, !expect)),
+    }
+}
+
 pub fn run(ctx: &Ctx) -> Report {
     let mut rep = Report::new();
+    for h in [15u32, 16, 31, 32, 33, 63, 64, 65, 100, 127, 128, 160, 191, 192, 200, 249, 250] {
+        for nvf in [0, h / 2, h, h + 1] {
+            for corrupt in 0..5u8 {
+                for k in 0..ctx.n(1, 4) {
+                    let seed = mix(ctx.seed, ((h as u64) << 20) | ((nvf as u64) << 8) | k);
+                    let o = check_tall(h, nvf, seed, corrupt);
+                    rep.record(&o, || json!({"tall": {"height": h, "nvf": nvf, "seed": seed, "corrupt": corrupt}}));
+                    if let Some(fl) = &o.fail {
+                        rep.fail(ctx, fl, || json!({"label":"c04tall","case": {"height": h, "nvf": nvf, "seed": seed, "corrupt": corrupt}}));
+                    }
+                }
+            }
+        }
+    }
+    run_children(ctx, "c04big", 2.min(ctx.threads), Limits { cpu_s_per_case: 120, address_space_bytes: 8 << 30, wall_s_total: 900 }, &mut rep);
     let max_h = if ctx.quick() { 10 } else { 14 };
     pt_run(ctx, "c04", ctx.n(40000, 600000), || strategy(max_h), check, &mut rep);
     // a small deterministic sweep over every (height, nvf) boundary position with the three special shapes
@@ -248,8 +348,12 @@ pub fn run(ctx: &Ctx) -> Report {
 }
 
 pub fn replay(_ctx: &Ctx, v: &Value) -> Result<Outcome, String> {
+    if v["label"] == "c04tall" {
+        let g = |k: &str| v["case"][k].as_u64().unwrap_or(0);
+        return Ok(check_tall(g("height") as u32, g("nvf") as u32, g("seed"), g("corrupt") as u8));
+    }
     let c: Case = serde_json::from_value(v["case"].clone()).map_err(|e| e.to_string())?;
     Ok(check(&c))
 }
 
-pub const RULE: &str = "proptest-generated (height 0..=10 quick / 14 thorough, nvf 0..=height+2, PRF leaves, query set from 6 shape classes, 0/1 corruption of 6 kinds) plus a deterministic grid over every (height<=8, nvf) x special shape x corruption; non-trivial = corruption that makes the claim semantically false (re-verified against the full tree), or friendly/masked boundary strictly inside the tree, or single/adjacent-pair/whole-tree shape; distinct by case hash, per hash build";
+pub const RULE: &str = "proptest-generated (height 0..=10 quick / 14 thorough, nvf 0..=height+2, PRF leaves, query set from 6 shape classes, 0/1 corruption of 6 kinds incl. Merkle-node deltas that only touch bits above the masked-hash width) plus a deterministic grid over every (height<=8, nvf) x special shape x corruption; plus large query sets (every leaf / every second leaf of trees of height 11..=15, thorough 17) run in a child process on a default-size thread stack so that an abort is observed; plus single openings of sparse trees of height 15..=250 (index as a big integer) with 4 corruptions; non-trivial = corruption that makes the claim semantically false (re-verified against the full tree), or friendly/masked boundary strictly inside the tree, or single/adjacent-pair/whole-tree shape; distinct by case hash, per hash build";
